@@ -30,6 +30,8 @@ var alphabet = []fragment{
 	{"sp-tab-ind", "  \tAND e = 5"},
 	{"tab-sp-tab-ind", "\t \tOR f = 6"},
 	{"lower-kw", "select a from t"},
+	{"lower-long-kw", "refresh materialized view v1"},
+	{"mixed-long-kw", "With Recursive w1 As (Select Distinct a From t Intersect Select b From u)"},
 	{"str-1line", "WHERE s = 'and  x '  AND f = 6"},
 	{"str-open", "WHERE s = 'x  select  "},
 	{"str-mid", "from  y  "},
@@ -47,7 +49,8 @@ var alphabet = []fragment{
 
 // keywords used by the alphabet (all of them are keywords for the library's
 // tokenizer and for the keyword-case rule's own list).
-var modelKeywords = map[string]bool{"SELECT": true, "FROM": true, "WHERE": true, "AND": true, "OR": true}
+var modelKeywords = map[string]bool{"SELECT": true, "FROM": true, "WHERE": true, "AND": true, "OR": true,
+	"REFRESH": true, "MATERIALIZED": true, "VIEW": true, "WITH": true, "RECURSIVE": true, "AS": true, "DISTINCT": true, "INTERSECT": true}
 
 // ---------------------------------------------------------------- text of a case
 
